@@ -9,7 +9,7 @@ rm -rf $d; mkdir -p $d/repo
 rsync -a --exclude target --exclude .git /repo/ $d/repo/
 patch=/verif/seeded/$name/patch.rebased.diff; [ -f $patch ] || patch=/verif/seeded/$name/patch.diff
 (cd $d/repo && git init -q . 2>/dev/null && git apply $patch) || { echo "$name: patch does not apply"; exit 3; }
-VERIF_REPO=$d/repo VERIF_EVIDENCE_DIR=$d/evidence VERIF_SCRATCH=$d/scratch /verif/bin/check $id --tier $tier > $d/out.txt 2>&1
+VERIF_NO_PLAYBACK=${VERIF_NO_PLAYBACK-1} VERIF_REPO=$d/repo VERIF_EVIDENCE_DIR=$d/evidence VERIF_SCRATCH=$d/scratch /verif/bin/check $id --tier $tier > $d/out.txt 2>&1
 rc=$?
 echo "$name rc=$rc $(grep -c '^VIOLATION' $d/out.txt) violation line(s): $(grep '^violated obligation' $d/out.txt | head -3 | cut -c1-200 | tr '\n' '|')"
 rm -rf $d/repo $d/scratch
